@@ -53,6 +53,8 @@ def c01(tier, seed):
     scns = (C.pairings_2d() + C.strands() + C.cubes_3d() + C.numeric_measures()
             + C.numeric_arrays())
     scns = scns + C.unweighted(C.pairings_2d()[:4] + C.strands()[:2] + C.cubes_3d()[:2])
+    scns = scns + C.fractional(C.pairings_2d()[:4] + C.strands()[:2] + C.cubes_3d()[:1]
+                               + C.numeric_measures()[:2] + C.numeric_arrays()[:2])
     return dict(
         jobs=_value_jobs("C01", "c01", scns, tier, seed),
         rule="TLC enumerates every bag of <= N respondents (BFS) and random larger bags "
@@ -66,6 +68,7 @@ def c01(tier, seed):
 def c02(tier, seed):
     scns = C.pairings_2d() + C.strands() + C.cubes_3d() + C.numeric_arrays()[:2]
     scns = scns + C.unweighted(C.pairings_2d()[:4] + C.strands()[:2])
+    scns = scns + C.fractional(C.pairings_2d()[:4] + C.strands()[:1] + C.cubes_3d()[:1])
     scns = scns + [dict(s, name=s["name"] + ".ins") for s in _insertion_scns(tier, seed)]
     return dict(
         jobs=_value_jobs("C02", "c02", scns, tier, seed),
@@ -78,6 +81,7 @@ def c02(tier, seed):
 def c03(tier, seed):
     scns = C.pairings_2d() + C.strands() + C.cubes_3d()
     scns = scns + C.unweighted(C.pairings_2d()[:4] + C.strands()[:2])
+    scns = scns + C.fractional(C.pairings_2d()[:4] + C.strands()[:1])
     return dict(
         jobs=_value_jobs("C03", "c03", scns, tier, seed, report_warnings=True),
         rule="as C01; proportions, percentages and margin proportions compared per state, "
@@ -120,6 +124,7 @@ def c04(tier, seed):
         scenario("cat_1d_y", [cat("A", 4, miss=[3])], **y),
         scenario("cat_x_cat.u", [cat("A", 4, miss=[2]), cat("B", 3)], weighted=False),
     ]
+    scns += C.fractional([scns[0], scns[1], scns[7], scns[10]])
     scns = _with_insertions(scns, n, seed)
     return dict(
         jobs=_value_jobs("C04", "c04", scns, tier, seed),
@@ -144,12 +149,14 @@ def _insertion_scns(tier, seed, extra=()):
         scenario("casub_x_cacat", [caitems("A", 2), cacat("A", 3)]),
         scenario("cat_1d", [cat("A", 4, miss=[2])]),
         scenario("cat_x_cat.u", [cat("A", 3), cat("B", 3)], weighted=False),
-    ] + list(extra)
+    ]
+    scns += C.fractional(scns[:2]) + list(extra)
     return _with_insertions(scns, n, seed)
 
 
 def c11(tier, seed):
     scns = C.pairings_2d()[:8] + C.strands()[:2] + C.cubes_3d()[:4] + C.unweighted(C.pairings_2d()[:2])
+    scns = scns + C.fractional(C.pairings_2d()[:4] + C.strands()[:1])
     scns = scns + [dict(s, name=s["name"] + ".ins") for s in _insertion_scns(tier, seed)]
     return dict(
         jobs=_value_jobs("C11", "c11", scns, tier, seed,
@@ -165,6 +172,7 @@ def c11(tier, seed):
 def c12(tier, seed):
     from scenarios import cat, scenario
     scns = C.pairings_2d()[:8] + C.cubes_3d()[:5] + C.unweighted(C.pairings_2d()[:2])
+    scns = scns + C.fractional(C.pairings_2d()[:4], wden=4, weights=(1, 2, 5))
     scns.append(scenario("cat2_x_cat2", [cat("A", 3, miss=[2]), cat("B", 2)], max_resp=3))
     scns = scns + [dict(s, name=s["name"] + ".ins") for s in _insertion_scns(tier, seed)
                    if len(s["dims"]) > 1]
@@ -262,6 +270,7 @@ def c16(tier, seed):
         scenario("cat_x_cat_x_mr", [cat("T", 3, miss=[3]), cat("A", 2), mr("B", 2)]),
     ]
     scns += C.unweighted(scns[:2])
+    scns += C.fractional(scns[:3])
     scns += _with_insertions([scenario("cat_x_cat.ins", [cat("A", 3), cat("B", 3, miss=[2])])],
                              6 if tier == "quick" else 30, seed)
     scns += _with_order_configs([scenario("cat_x_mr.hide", [cat("A", 3, miss=[3]), mr("B", 2)]),
@@ -600,6 +609,7 @@ def c10(tier, seed):
         scenario("cat_x_cat.u", [cat("A", 3), cat("B", 2)], weighted=False),
         scenario("cat_x_cat_snan", [cat("A", 3), cat("B", 3)], **dict(y, sum_nan=True)),
     ]
+    base += C.fractional([base[0], base[1], base[5]], wden=4, weights=(1, 3, 6))
     scns = []
     for i, s in enumerate(base):
         s = dict(s)
